@@ -222,7 +222,6 @@ void support_api() {
   std::vector<T> v(4);
   Grid<T> g(v);
   Grid<T> g2(v.begin(), v.end());
-  Grid<T> g2s{InIt<T>{v}, InIt<T>{}};   // a single-pass range (stream-like source)
   Grid<T> g3{static_cast<T>(0), static_cast<T>(1)};
   Grid<T> g4(std::make_shared<const std::vector<T>>(v));
   Grid<T> g5(g);
